@@ -255,11 +255,17 @@ def replay_all(chk, sc, outs, fn, procs=12, chunk=200):
             chk.extra.setdefault("outcome_disagreements_not_judged_here", []).extend(other[:5])
             chk.evaluations += n
             chk.traces += n
-            chk.nontrivial_count += nt
             for d in bad:
                 if not d.pop("_reproduced"):
                     raise MachineryError("disagreement not reproducible: %r" % (d,))
                 chk.disagree(d)
+    # non-trivial scenarios are counted once each: random generation may repeat a scenario
+    seen = set()
+    for it in sc.items:
+        if it["meta"].get("nontrivial", True):
+            seen.add(json.dumps([it["sid"], sorted((k, [str(l) for l in v]) for k, v in it["files"].items()),
+                                 it["main"], it["opts"], it["meta"].get("fault")], sort_keys=True, default=str))
+    chk.nontrivial_count += len(seen)
 
 
 # -- sessions (C12, C13) ------------------------------------------------------------------
